@@ -1095,6 +1095,9 @@ func (t *tScreen) draw() {
 	for y := 0; y < t.h; y++ {
 		for x := 0; x < t.w; x++ {
 			width := t.drawCell(x, y)
+			if width < 1 {
+				width = 1 // outside the cell buffer: never step backwards
+			}
 			if width > 1 {
 				if x+1 < t.w {
 					// this is necessary so that if we ever
@@ -2078,6 +2081,15 @@ func (t *tScreen) engage() error {
 	t.running = true
 	if ws, err := t.tty.WindowSize(); err == nil && ws.Width != 0 && ws.Height != 0 {
 		t.cells.Resize(ws.Width, ws.Height)
+		if ws.Width != t.w || ws.Height != t.h {
+			// the window changed while we were away: keep the size in step
+			// with the cell buffer and tell the application, as resize() does
+			t.w, t.h = ws.Width, ws.Height
+			select {
+			case t.eventQ <- &EventResize{t: time.Now(), ws: ws}:
+			default:
+			}
+		}
 	}
 	stopQ := make(chan struct{})
 	t.stopQ = stopQ
